@@ -47,6 +47,8 @@ LEVEL_TEXT = ("Generated-input search against direct definitions; shows the prop
               "never the absence of violations.")
 
 LD = np.longdouble
+# squares of deviations below ~1e-154 underflow in float64 (numpy's own std returns 0 there): absolute floor
+ABS_FLOOR = 1e-150
 
 
 # ------------------------------------------------------------------------------ shared bits
@@ -188,7 +190,7 @@ def check_wmom(case, ctx):
             if k == 1 and not case["calcerr"]:
                 tol = 1e-12 * float(exps[k][j])
             else:
-                tol = 1e-12 * float(scale[j]) + 1e-300
+                tol = 1e-12 * float(scale[j]) + ABS_FLOOR
             require(_close(gg[j], exps[k][j], tol),
                     "%s[col %d]=%r, definition gives %r (n=%d, calcerr=%r, inputmean=%r, tol %.3g)", names[k], j,
                     float(gg[j]), float(exps[k][j]), arr.shape[0], case["calcerr"], case["inputmean"], tol)
@@ -432,7 +434,7 @@ def check_clip(case, ctx):
         return
     m, e, s = st_
     scale = float(np.abs(x[ind]).max())
-    tol = 1e-12 * scale + 1e-300
+    tol = 1e-12 * scale + ABS_FLOOR
     require(_close(r[0], m, tol), "mean=%r but the reported subset %r has mean %r", float(r[0]),
             ind.tolist()[:30], float(m))
     require(_close(r[1], s, tol), "stdev=%r but the reported subset %r has deviation %r", float(r[1]),
@@ -535,7 +537,7 @@ def check_interp(case, ctx):
         i = min(max(i, 0), n - 2)
         term = (LD(uq) - xl[i]) * (vl[i + 1] - vl[i]) / (xl[i + 1] - xl[i])
         exp = vl[i] + term
-        tol = 1e-12 * float(abs(vl[i]) + abs(vl[i + 1]) + abs(term)) + 1e-300
+        tol = 1e-12 * float(abs(vl[i]) + abs(vl[i + 1]) + abs(term)) + ABS_FLOOR
         require(_close(got[j], exp, tol), "interplin(u=%r)=%r, piecewise-linear value %r (segment [%r,%r] -> "
                 "[%r,%r])", uq, float(got[j]), float(exp), float(x[i]), float(x[i + 1]), float(v[i]),
                 float(v[i + 1]))
@@ -601,7 +603,7 @@ def check_get_stats(case, ctx):
             ctx.count("clip-zero-weight-subset")
             return
         m, e, s = st_
-        tol = 1e-12 * float(np.abs(x[ind]).max()) + 1e-300
+        tol = 1e-12 * float(np.abs(x[ind]).max()) + ABS_FLOOR
         require(_close(r["mean"], m, tol) and _close(r["std"], s, tol) and _close(r["err"], e, tol),
                 "get_stats(clip) mean/std/err=%r/%r/%r, the surviving subset has %r/%r/%r", r["mean"], r["std"],
                 r["err"], float(m), float(s), float(e))
@@ -643,7 +645,7 @@ def check_get_stats(case, ctx):
             m, e2, s = _subset_stats(col, w)
             calcerr = True if case["calcerr"] is None else case["calcerr"]
             e = e2 if calcerr else 1.0 / np.sqrt(w.astype(LD).sum())
-        tol = 1e-12 * float(np.abs(col).max()) + 1e-300
+        tol = 1e-12 * float(np.abs(col).max()) + ABS_FLOOR
         etol = tol if (w is None or case["calcerr"] in (None, True)) else 1e-12 * float(e)
         g = {k: float(np.asarray(r[k]).reshape(-1)[j]) for k in r}
         require(g["min"] == float(col.min()) and g["max"] == float(col.max()), "col %d: min/max=%r/%r, data %r/%r",
@@ -723,18 +725,18 @@ def check_cov(case, ctx):
         require(abs(float(cor[i, i]) - 1.0) <= 1e-12, "cor[%d,%d]=%r, expected 1", i, i, cor[i, i])
         for j in range(n):
             exp = cl[i, j] / np.sqrt(cl[i, i] * cl[j, j])
-            require(_close(cor[i, j], exp, 1e-12 * abs(float(exp)) + 1e-300),
+            require(_close(cor[i, j], exp, 1e-12 * abs(float(exp)) + ABS_FLOOR),
                     "cor[%d,%d]=%r, cov/sqrt(cov_ii cov_jj)=%r", i, j, cor[i, j], float(exp))
     back = np.asarray(must(es.cor2cov, cor, np.sqrt(np.diag(c))))
     require(back.shape == (n, n), "cor2cov returned shape %r", back.shape)
-    bad_ = np.abs(back - c) > 1e-12 * np.abs(c) + 1e-300
+    bad_ = np.abs(back - c) > 1e-12 * np.abs(c) + ABS_FLOOR
     require(not bad_.any(), "cor2cov(cov2cor(C), sqrt(diag C)) differs from C at %r: %r vs %r",
             np.argwhere(bad_).tolist()[:3], back[bad_].tolist()[:3], c[bad_].tolist()[:3])
     # cor2cov against its definition on an independent correlation matrix / error vector
     errs = np.sqrt(np.diag(c))[::-1].copy()
     cc = np.asarray(must(es.cor2cov, cor, errs))
     exp = cor.astype(LD) * errs.astype(LD)[:, None] * errs.astype(LD)[None, :]
-    bad2 = np.abs(cc - exp) > 1e-12 * np.abs(exp) + 1e-300
+    bad2 = np.abs(cc - exp) > 1e-12 * np.abs(exp) + ABS_FLOOR
     require(not bad2.any(), "cor2cov(cor, err)[i,j] != cor[i,j]*err[i]*err[j] at %r", np.argwhere(bad2).tolist()[:3])
 
 
